@@ -458,6 +458,13 @@ func (p c16) Run(w *mon.Worker, idx int) mon.Result {
 			break
 		}
 		par := parents.A[i].A[0]
+		// the parent IS the container found at the parent's path (not a look-alike with the same path and that child)
+		if !stale {
+			if at2, ok2 := base.GetPath(in.ppath); !ok2 || !ref.EqualNum(at2, par) {
+				violation = fmt.Sprintf("global: node %d (path %s): `parent` returns %s, but the container at the parent's path %s is %s", i, ps, clipStr(par.JSON(), 160), ref.PathString(in.ppath), clipStr(fmt.Sprint(at2), 160))
+				break
+			}
+		}
 		child, ok := par.GetPath([]any{in.key})
 		if !ok || !ref.EqualNum(child, v) {
 			violation = fmt.Sprintf("local: node %d is %s with key %v, but its parent %s holds %v there", i, clipStr(v.JSON(), 100), in.key, clipStr(par.JSON(), 160), child)
